@@ -183,8 +183,32 @@ func circuitTypeOf(p *core.Program, anchor string) (*types.Named, *ssa.Function,
 				if !ok {
 					continue
 				}
+				// functions handed on as values (setupWith(BuildR1CSInsertion, …)) are part of the chain
+				for _, a := range call.Common().Args {
+					for {
+						if ct, ok := a.(*ssa.ChangeType); ok {
+							a = ct.X
+							continue
+						}
+						break
+					}
+					if fv, ok := a.(*ssa.Function); ok && fv.Pkg != nil && core.InRepo(fv.Pkg.Pkg.Path()) {
+						visit(fv)
+					}
+					if mc, ok := a.(*ssa.MakeClosure); ok {
+						if cf, ok := mc.Fn.(*ssa.Function); ok {
+							visit(cf)
+						}
+					}
+				}
 				callee := call.Common().StaticCallee()
 				if callee == nil {
+					continue
+				}
+				if o := callee.Origin(); o != nil && callee.Pkg == nil {
+					if o.Pkg != nil && core.InRepo(o.Pkg.Pkg.Path()) {
+						visit(callee)
+					}
 					continue
 				}
 				if callee.Pkg != nil && callee.Pkg.Pkg.Path() == "github.com/consensys/gnark/frontend" && callee.Name() == "Compile" && len(call.Common().Args) >= 3 {
